@@ -12,7 +12,7 @@ from .. import common, build
 from ..common import Check, log, Server
 
 WL_DIR = os.path.join(common.VERIF, "scheme", "gc")
-WORKLOADS = ["lists", "evalenv", "errors", "strings", "bignum", "control", "evalmacro", "hash", "io", "threads", "clibs", "growstack"]
+WORKLOADS = ["lists", "evalenv", "errors", "strings", "bignum", "control", "evalmacro", "hash", "io", "threads", "clibs", "cast", "growstack"]
 ENV = {"VERIF_POISON": "1",
        "ASAN_OPTIONS": "detect_leaks=0:allocator_may_return_null=1:abort_on_error=0:halt_on_error=0:"
                        "detect_stack_use_after_return=0:allow_user_poisoning=1:symbolize=1:print_legend=0:detect_odr_violation=0"}
